@@ -287,9 +287,10 @@ class Material(MutableMapping[str, str]):
         for param in self._params.values():
             name = param.name
             value = param.value
-            if any(c in BARE_DISALLOWED for c in name):
+            # A bare token cannot begin with / or #, those start a comment or directive.
+            if name.startswith(('/', '#')) or any(c in BARE_DISALLOWED for c in name):
                 name = f'"{name}"'
-            if not value or any(c in BARE_DISALLOWED for c in value):
+            if not value or value.startswith(('/', '#')) or any(c in BARE_DISALLOWED for c in value):
                 value = f'"{value}"'
             f.write(f'\t{name} {value}\n')
         for block in self.blocks:
